@@ -34,7 +34,25 @@ def operand_descr(F, f, o):
         return "-"
     ex = expr.Expr(F, f, inline_getters=True, max_depth=12)
     e = ex.of_operand(o)
+    if f.j.get("parent_fn") and "{closure" in f.path:
+        e = _name_captures(F, f, e)
     return short(e, f)
+
+
+def _name_captures(F, f, e, depth=0):
+    """Inside a closure, describe a captured variable (`(*_1).k`) by what the enclosing function captured."""
+    if not isinstance(e, tuple) or depth > 12:
+        return e
+    if e[0] == "field" and e[1] == ("arg", 1) and str(e[2]).isdigit():
+        parent = F.fns.get(f.j.get("parent_fn")) or F.fns.get(f.path.rsplit("::{closure", 1)[0])
+        if parent is not None:
+            for b, i, st in parent.iter_stmts():
+                if st["k"] == "assign" and st["rv"]["k"] == "aggregate" and st["rv"].get("agg") == "closure" and st["rv"].get("path") == f.path:
+                    ops = st["rv"]["ops"]
+                    if int(e[2]) < len(ops):
+                        return ("captured", operand_descr(F, parent, ops[int(e[2])]))
+        return e
+    return tuple(_name_captures(F, f, x, depth + 1) if isinstance(x, tuple) else x for x in e)
 
 
 def short(e, f, depth=0):
@@ -63,6 +81,8 @@ def short(e, f, depth=0):
         return e[1].split("::")[-1]
     if k == "un":
         return "%s(%s)" % (e[1], short(e[2], f, depth + 1))
+    if k == "captured":
+        return e[1]
     return k
 
 
@@ -849,8 +869,10 @@ def apply_obligations(F, A, an, sites):
     for s in sites:
         if s.status is not None:
             continue
+        # a site inside a closure is also offered to the obligations of the function the closure belongs to
+        fkeys = [s.f.key, re.sub(r"(::\{closure#\d+\})+$", "", s.f.key)]
         for ob in obligations.OBL:
-            if not re.search(ob["fn"], s.f.key):
+            if not any(re.search(ob["fn"], k) for k in fkeys):
                 continue
             if not re.search(ob["site"], s.desc):
                 continue
